@@ -19,6 +19,15 @@ Theorem C16_execution : forall fpext fptrunc errtab id ps b st sc h v inners x s
                a_msgs := msgs |}, (st', sc')) /\
     reg_matches st' (h ++ [HExec id ps b]).
 Proof. exact exec_delivers. Qed.
+(* the types bound for the statement follow the history however many parameters the shim pulls --
+   including none at all (bound at validation time) *)
+Theorem C16_registry_any_pull : forall fpext fptrunc errtab id ps b st sc h v rep st' sc',
+  reg_matches st h -> abs_stmt h id = Some v ->
+  v_params v = Nlen ps -> Nlen ps < 65536 ->
+  (b = true -> types_ok ps) ->
+  abs_handle fpext fptrunc errtab (CmdExecute id (exec_block ps b)) (st, sc) = Some (rep, (st', sc')) ->
+  reg_matches st' (h ++ [HExec id ps b]).
+Proof. exact exec_registry_any_pull. Qed.
 Theorem C16_reuse_block : forall fpext fptrunc ps long bound0 inners,
   Nlen ps < 65536 -> length bound0 = length ps ->
   delivered_all fpext long bound0 0 ps = Some inners ->
